@@ -16,7 +16,7 @@ ID = 'C15'
 LEVEL = 'exploration'
 RUNS = {'quick': 30000, 'thorough': 600000}
 CHUNK = 80
-PROBES = ['frame_exactly_at_load_address', 'frame_one_below_lowest', 'frame_between_adjacent_images', 'duplicate_address_announced',
+PROBES = ['lost_record', 'repeated_request_same_object', 'frame_exactly_at_load_address', 'frame_one_below_lowest', 'frame_between_adjacent_images', 'duplicate_address_announced',
           'header_count_below_data', 'header_count_above_data', 'header_count_zero', 'sample_without_header', 'sample_without_flag',
           'launch_with_nested_maps', 'shared_cache_map', 'image_announced_inside_sample_window', 'announcement_after_sample',
           'unrelated_record_in_sample', 'several_data_records', 'via_file_api', 'out_of_order_announcements']
@@ -90,8 +90,13 @@ def generate(rng, index, tier):
     per = kernel.expand_threads(threads, ids)
     shape = rng.pick(['sensitive', 'uniform', 'uniform', 'bursty', 'rr1', 'serial'])
     sched = draw_sensitive(rng, per, tool.codes()) if shape == 'sensitive' else kernel.draw_schedule(rng, per, shape)
-    return {'threads': threads, 'schedule': sched, 'via_file': rng.chance(0.25), 't0': (rng.randrange(1, 1 << 40) << 8) | 1,
-            'tsmode': worlds.draw_tsmode(rng, ties=False)}
+    total = sum(len(p) for p in per)
+    faults = []
+    if rng.chance(0.3):
+        for _f in range(rng.randint(1, 2)):
+            faults.append({'k': 'drop', 'at': rng.randrange(max(1, total))})      # a lost record (END of a sample, a header, a map...)
+    return {'threads': threads, 'schedule': sched, 'via_file': rng.chance(0.3), 't0': (rng.randrange(1, 1 << 40) << 8) | 1,
+            'tsmode': worlds.draw_tsmode(rng, ties=False), 'faults': faults, 'requests': rng.pick([1, 1, 2, 3])}
 
 
 def _words_to_uuid(a):
@@ -105,7 +110,11 @@ def execute(scn):
 
     def bump(k, v=1):
         stats[k] = stats.get(k, 0) + v
-    table, stream = worlds.build_stream(scn)
+    fired = {}
+    table, stream = worlds.build_stream(scn, fired)
+    if fired:
+        bump('fault:lost_event', sum(fired.values()))
+        bump('probe:lost_record')
     ids = worlds.catalog()['ids']
     MAP, SC, LAUNCH = ids['DYLD_uuid_map_a'], ids['DYLD_uuid_shared_cache_a'], ids['DBG_DYLD_TIMING_LAUNCH_EXECUTABLE']
     PE, HDR, DATA = ids['PERF_Event'], ids['PERF_STK_UHdr'], ids['PERF_STK_UData']
@@ -151,6 +160,12 @@ def execute(scn):
         data, _ = worlds.build_file({'version': 2, 'tmap': [], 'pad': 0}, [kernel.to_bytes(r) for r in stream])
         p = tool.pk_mod.PyKdebugParser()
         got, exc = common.drain(lambda: p.callstacks(SimReader(data), table))
+        for _rq in range(scn.get('requests', 1) - 1):
+            # the same request again on the same object: judged against the same model (it is a function of the dump)
+            bump('probe:repeated_request_same_object')
+            bump('fault:repeat')
+            if exc is None:
+                got, exc = common.drain(lambda: p.callstacks(SimReader(data), table))
     else:
         tparser = tool.tp_mod.TracesParser(table, {}, {})
         cparser = tool.cs_mod.CallstacksParser([], [])
